@@ -13,3 +13,19 @@ def iso_table():
 
 def tables_json():
     return json.dumps({'iso': iso_table()})
+
+
+def valence_tables():
+    from chython.periodictable import Element
+    els = {x.atomic_number.fget(None): x for x in Element.__subclasses__()}
+    sym2z = {x.__name__: z for z, x in els.items()}
+    out = []
+    for z in range(1, 119):
+        e = els[z]()
+        out.append({'common': list(e._common_valences),
+                    'exc': [[c, 1 if r else 0, h, [[b, sym2z[s]] for b, s in env]] for c, r, h, env in e._valences_exceptions]})
+    return out
+
+
+def all_tables_json():
+    return json.dumps({'iso': iso_table(), 'val': valence_tables()})
